@@ -197,5 +197,9 @@ def apply_all():
     s1_partialmethods()
     s4_fraction_hash()
     s5_barriers()
+    from vf import infshim
+
+    infshim.install()
+    APPLIED.append("S7 comparisons of a symbolic int with +-inf answered exactly (vf/infshim.py) instead of through the float theory")
     APPLIED.append("S2 per-path fresh Environment with linear-scan hash-cons tables (ctx.fresh_env)")
     APPLIED.append("S3 fresh Environment per path (determinism across re-executions)")
